@@ -41,6 +41,10 @@ def shards(tier):
     return 4 if tier == "quick" else 16
 
 
+# generous per-shard caps: expiry means INCONCLUSIVE, never a verdict (the box is shared and can be 10x slow)
+TIMEOUT = {"quick": 900, "thorough": 3000}
+
+
 # ---- local facts ------------------------------------------------------------------------------
 LOCAL_USER = pwd.getpwuid(os.getuid()).pw_name
 for _v in ("LOGNAME", "USER", "LNAME", "USERNAME"):
@@ -483,7 +487,7 @@ def run(ctx):
     d = tempfile.mkdtemp(prefix="vf-c40-")
     ctx.note("local_facts", dict(user=LOCAL_USER, home=HOME, short=LOCAL_SHORT, fqdn=LOCAL_FQDN))
     try:
-        for i in range(ctx.pick(1500, 12000)):
+        for i in range(ctx.pick(1500, 8000)):
             blocks, use_hostname, use_user = gen_config(rng)
             text = render(rng, blocks)
             try:
